@@ -17,6 +17,39 @@ class Unsupported(Exception):
     pass
 
 
+_BAD_PATTERN_OPS = {z3.Z3_OP_ITE, z3.Z3_OP_NOT, z3.Z3_OP_AND, z3.Z3_OP_OR, z3.Z3_OP_EQ, z3.Z3_OP_IMPLIES,
+                    z3.Z3_OP_LE, z3.Z3_OP_GE, z3.Z3_OP_LT, z3.Z3_OP_GT, z3.Z3_OP_DISTINCT}
+
+
+def _pattern_ok(t):
+    stack = [t]
+    while stack:
+        x = stack.pop()
+        if z3.is_app(x):
+            if x.decl().kind() in _BAD_PATTERN_OPS:
+                return False
+            stack.extend(x.children())
+    return True
+
+
+_z3_forall, _z3_exists = z3.ForAll, z3.Exists
+
+
+def _safe_quant(orig):
+    def q(vs, body, weight=1, qid="", skid="", patterns=[], no_patterns=[]):
+        good = []
+        for p in patterns or []:
+            terms = [p.arg(i) for i in range(p.num_args())] if z3.is_pattern(p) else [p]
+            if all(_pattern_ok(t) for t in terms):
+                good.append(p)
+        return orig(vs, body, weight, qid, skid, good, no_patterns)
+    return q
+
+
+z3.ForAll = _safe_quant(_z3_forall)
+z3.Exists = _safe_quant(_z3_exists)
+
+
 class Stale(Exception):
     """The contract cannot be applied to the current source (anchor / name / loop missing)."""
 
@@ -219,7 +252,9 @@ class Exec:
                                                          karr[pos(z, kx)] == kx)),
                                  patterns=[t.has(z)[kx]]))
         elif isinstance(t, TOpt):
-            pass
+            inner = self.wf(SV(t.inner, t.val(z)), depth + 1)
+            if inner:
+                out.append(z3.Implies(z3.Not(t.is_none(z)), z3.And(*inner)))
         return out
 
     def havoc(self, st, name, why="havoc"):
@@ -287,6 +322,15 @@ class Exec:
         if isinstance(sv.t, TOpt) and sv.t.inner == t:
             return SV(t, sv.t.val(sv.z))
         raise Unsupported("cannot coerce %s to %s" % (sv.t, t))
+
+    def unwrap(self, st, sv, node=None, what="value"):
+        """Optional value used where the wrapped value is needed: None would raise -> safety obligation."""
+        if isinstance(sv.t, TOpt):
+            if not st.spec:
+                self.oblige(st, "safety.not_none", z3.Not(sv.t.is_none(sv.z)), "safety", node,
+                            "%s is not None: %s" % (what, src_prefix(node) if node is not None else ""))
+            return SV(sv.t.inner, sv.t.val(sv.z))
+        return sv
 
     def unify_num(self, a, b):
         if a.t == REAL or b.t == REAL:
@@ -418,24 +462,37 @@ class Exec:
         if n in self.ghost_fns:
             return SV(FUNC, py=("ghost", n))
         if n in self.c.consts:
-            ty, val = self.c.consts[n]
-            t = parse_type(ty)
-            sv = self.const("K_" + n, t)
-            st.env[n] = sv
-            return sv
+            return self.const_value(st, n)
         return SV(FUNC, py=("name", n))
+
+    def const_value(self, st, n):
+        """module-level constant: a literal value, or a symbolic constant (same symbol on every path)"""
+        ty, val = self.c.consts[n]
+        t = parse_type(ty)
+        if val is not None:
+            return self.ev(st, ast.parse(repr(val), mode="eval").body)
+        return self.const("K_" + n.replace(".", "_"), t)
 
     def ev_Attribute(self, st, node):
         # self.x  |  module.func  |  value.method
+        try:
+            dotted = ast.unparse(node)
+        except Exception:
+            dotted = None
+        if dotted and dotted in st.env:
+            return st.env[dotted]
         if isinstance(node.value, ast.Name):
             full = node.value.id + "." + node.attr
             if full in st.env:
                 return st.env[full]
+            if full in self.c.consts:
+                return self.const_value(st, full)
             if node.value.id not in st.env:
                 return SV(FUNC, py=("name", full))
         base = self.ev(st, node.value)
         if base.t is FUNC and base.py[0] == "name":
             return SV(FUNC, py=("name", base.py[1] + "." + node.attr))
+        base = self.unwrap(st, base, node, "object")
         r = self.lib.attribute(self, st, base, node.attr, node)
         if r is not None:
             return r
@@ -511,6 +568,21 @@ class Exec:
         st.guards.append(z3.Not(c))
         b = self.ev(st, node.orelse)
         st.guards.pop()
+        for (p, q, first) in ((a, b, True), (b, a, False)):
+            # `x if x is not None else []`: the optional is used unwrapped in its branch
+            if isinstance(p.t, TOpt) and isinstance(p.t.inner, TSeq) and \
+                    ((isinstance(q.t, TPy) and q.t.what == "emptylist") or q.t == p.t.inner):
+                pv = SV(p.t.inner, p.t.val(p.z))
+                qv = self.seq_lit(st, [], p.t.inner.elem, p.t.inner.kind) if isinstance(q.t, TPy) else q
+                return SV(p.t.inner, z3.If(c, pv.z, qv.z) if first else z3.If(c, qv.z, pv.z))
+        if isinstance(a.t, TSeq) and isinstance(b.t, TPy) and b.t.what == "emptylist":
+            b = self.seq_lit(st, [], a.t.elem, a.t.kind)
+        elif isinstance(b.t, TSeq) and isinstance(a.t, TPy) and a.t.what == "emptylist":
+            a = self.seq_lit(st, [], b.t.elem, b.t.kind)
+        if isinstance(a.t, TOpt) and a.t.inner == b.t:
+            a = SV(b.t, a.t.val(a.z))
+        elif isinstance(b.t, TOpt) and b.t.inner == a.t:
+            b = SV(a.t, b.t.val(b.z))
         if a.t != b.t:
             if {a.t, b.t} <= {INT, REAL, BOOL}:
                 x, y, t = self.unify_num(a, b)
@@ -530,6 +602,10 @@ class Exec:
         return self.binop(st, node.op, a, b, node)
 
     def binop(self, st, op, a, b, node=None):
+        if isinstance(a.t, TOpt) and isinstance(a.t.inner, TSeq):
+            a = self.unwrap(st, a, node, "left operand")
+        if isinstance(b.t, TOpt) and isinstance(b.t.inner, TSeq):
+            b = self.unwrap(st, b, node, "right operand")
         r = self.lib.binop(self, st, op, a, b, node)
         if r is not None:
             return r
@@ -629,7 +705,7 @@ class Exec:
             base = self.ev(st, node.value.value)
             if isinstance(base.t, TSeq):
                 return SV(INT, self.seq_len(base))
-        base = self.ev(st, node.value)
+        base = self.unwrap(st, self.ev(st, node.value), node, "subscripted object")
         idx = self.ev(st, node.slice)
         return self.subscript(st, base, idx, node)
 
@@ -640,8 +716,15 @@ class Exec:
         if isinstance(base.t, TSeq):
             if idx.t is SLICE:
                 lo, hi = idx.py
-                return self.seq_slice(st, base, lo.z if lo is not None else None,
-                                      hi.z if hi is not None else None)
+                ln = self.seq_len(base)
+
+                def bound(b, dflt):
+                    if b is None or b.t is NONE:
+                        return None
+                    if isinstance(b.t, TOpt):    # a[x:end] with end possibly None
+                        return z3.If(b.t.is_none(b.z), dflt, b.t.val(b.z))
+                    return b.z
+                return self.seq_slice(st, base, bound(lo, z3.IntVal(0)), bound(hi, ln))
             if idx.t == INT:
                 ln = self.seq_len(base)
                 i = idx.z
@@ -901,6 +984,8 @@ class Exec:
             full = target.value.id + "." + target.attr
             if full in self.c.locals:
                 val = self.coerce_decl(st, val, parse_type(self.c.locals[full]))
+            elif target.value.id == "self" and target.attr in self.c.self_fields:
+                val = self.coerce_decl(st, val, parse_type(self.c.self_fields[target.attr]))
             st.env[full] = val
             return
         if isinstance(target, ast.Subscript):
@@ -973,6 +1058,8 @@ class Exec:
     def coerce_decl(self, st, val, t):
         if isinstance(val.t, TPy) and val.t.what == "emptylist" and isinstance(t, TSeq):
             return self.seq_lit(st, [], t.elem, t.kind)
+        if isinstance(val.t, TPy) and val.t.what == "emptylist" and isinstance(t, TOpt) and isinstance(t.inner, TSeq):
+            return SV(t, t.some(self.seq_lit(st, [], t.inner.elem, t.inner.kind).z))
         if isinstance(val.t, TPy) and val.t.what == "emptydict" and isinstance(t, TDict):
             return self.lib.dict_empty(self, st, t)
         return self.coerce(val, t)
@@ -1281,8 +1368,13 @@ class Exec:
                         names.append(b.value.id + "." + b.attr)
                     elif isinstance(b, ast.Subscript) and isinstance(b.value, ast.Name):
                         names.append(b.value.id)
+                    try:
+                        names.append(ast.unparse(b) + ".sink")
+                    except Exception:
+                        pass
                 callee = self.resolve_contract(ast.unparse(f))
                 if callee is not None and callee.modifies:
+                    names += [m for m in callee.modifies if m.startswith("self.")]
                     pnames = list(callee.params)
                     for i, a in enumerate(node.args):
                         if i < len(pnames) and pnames[i] in callee.modifies and isinstance(a, ast.Name):
@@ -1302,21 +1394,45 @@ class Exec:
         return out
 
     def resolve_contract(self, name):
-        """Callee contract for a source-level callee name (`create_chunks`, `utils.create_chunks`, `self.m`)."""
-        last = name.split(".")[-1]
+        """Callee contract for a source-level callee name.
+        `f`            -> a module-level function `...f` (same module preferred)
+        `self.m`       -> a method of the class of the function under verification
+        `mod.f`        -> function f of a module whose last name component is `mod` (utils.f, qvalues.tdc)
+        anything else  -> only through an explicit alias in the contract's `uses`: "expr=qualified.target"."""
+        for u in self.c.uses:
+            if "=" in u:
+                alias, tgt = u.split("=", 1)
+                if alias == name:
+                    return self.registry.get(tgt)
+        parts = name.split(".")
+        last = parts[-1]
         cands = [c for q, c in self.registry.items() if q.split(".")[-1] == last]
         if not cands:
             return None
-        if len(cands) > 1:
+        me = self.c.target.split("#")[0]
+        if len(parts) == 1:
+            mod = me.rsplit(".", 1)[0]
+            # module-level functions only (qualname = module + function)
+            cands = [c for c in cands if _is_module_level(c.target)]
+            same = [c for c in cands if c.target.rsplit(".", 1)[0] == mod or
+                    c.target.rsplit(".", 1)[0] == mod.rsplit(".", 1)[0]]
+            if len(same) == 1:
+                return same[0]
+            if len(cands) == 1:
+                return cands[0]
             pref = [c for c in cands if c.target in self.c.uses]
-            if len(pref) == 1:
-                return pref[0]
-            mod = self.c.target.rsplit(".", 1)[0]
-            pref = [c for c in cands if c.target.startswith(mod)]
-            if len(pref) == 1:
-                return pref[0]
-            return None
-        return cands[0]
+            return pref[0] if len(pref) == 1 else None
+        if len(parts) == 2 and parts[0] == "self":
+            cls = me.rsplit(".", 1)[0]
+            same = [c for c in cands if c.target.rsplit(".", 1)[0] == cls]
+            return same[0] if len(same) == 1 else None
+        if len(parts) == 2:
+            same = [c for c in cands if _is_module_level(c.target) and c.target.split(".")[-2] == parts[0]]
+            if len(same) == 1:
+                return same[0]
+            pref = [c for c in cands if c.target in self.c.uses and _is_module_level(c.target)]
+            return pref[0] if len(pref) == 1 else None
+        return None
 
     # ------------------------------------------------------------------ driver
     def number_loops(self, body):
@@ -1572,6 +1688,12 @@ class Exec:
             self.ghost_do(st, l.uses, "lemma." + l.name)
             for k, e in enumerate(l.ensures):
                 self.oblige(st, "lemma.%s.ensures%d" % (l.name, k), self.spec(st, e), "lemma", None, e)
+
+
+def _is_module_level(target):
+    """mokapot.utils.f -> True; mokapot.model.Model.fit -> False (a capitalised component = class)"""
+    parts = target.split("#")[0].split(".")
+    return not any(p[:1].isupper() for p in parts[:-1])
 
 
 def consts_in(z):
